@@ -17,11 +17,11 @@ class FakeProtocol:
         self._disconnect_callback = None
 
     def put(self, subunit, funcname, parameter):
-        self.sent.append(("put", str(subunit), funcname, parameter))
+        self.sent.append(("put", f"{subunit}", funcname, parameter))
         self.num_commands_sent += 1
 
     def get(self, subunit, funcname):
-        self.sent.append(("get", str(subunit), funcname, "?"))
+        self.sent.append(("get", f"{subunit}", funcname, "?"))
         self.num_commands_sent += 1
 
     def raw(self, data):
